@@ -147,13 +147,14 @@ func (p *Polygon) arcVertex(i int) bool {
 	// distance from a to midpoint
 	dMid := mid.Sub(a).Length()
 	// distance from midpoint to center of arc
-	dCenter := math.Sqrt((radius * radius) - (dMid * dMid))
+	// (for a semi-circle rounding can take the radicand below 0 and the cosine below -1)
+	dCenter := math.Sqrt(math.Max(0, (radius*radius)-(dMid*dMid)))
 	// center of arc
 	c := mid.Add(n.MulScalar(dCenter))
 	// work out the angle
 	ac := a.Sub(c).Normalize()
 	bc := b.Sub(c).Normalize()
-	dtheta := -side * math.Acos(ac.Dot(bc)) / float64(v.facets)
+	dtheta := -side * math.Acos(math.Max(-1, math.Min(1, ac.Dot(bc)))) / float64(v.facets)
 	// rotation matrix
 	m := Rotate(dtheta)
 	// radius vector
